@@ -16,12 +16,13 @@ FORBIDDEN = re.compile(r'\b(sorry|admit|native_decide|bv_decide|implemented_by|u
 
 
 class Problem:
-    def __init__(self, kind, what, case=None, detail=None, signature=None):
+    def __init__(self, kind, what, case=None, detail=None, signature=None, related=None):
         self.kind = kind            # 'oracle' | 'corr' | 'proof'
         self.what = what
         self.case = case
         self.detail = detail or {}
         self.signature = signature  # for known-findings matching (oracle problems)
+        self.related = list(related or [])   # other cases the verdict rests on (confirmed against the program as well)
 
 
 class Ctx:
@@ -42,6 +43,7 @@ class Ctx:
         self.real_binary = None
         self.t0 = time.time()
         self.exhaustive = False
+        self.obs = {}               # in-process observations by case id (to be confirmed against the program run on its own)
         self.blackbox = None        # set when the tagged driver does not build but the program does (see blackbox.py)
 
     # -- ids
@@ -65,7 +67,9 @@ class Ctx:
                                                 'although the program itself builds: the correspondence through the hooks cannot be checked. The search for a failing input '
                                                 'went on with the untagged binary as a separate process (app cases without injected faults only). Compiler: ' + str(e)[-1200:]))
                 self.notes.append('black-box fallback: tagged build failed, untagged build succeeded')
-        return self.driver.run(cases)
+        res = self.driver.run(cases)
+        self.obs.update(res)
+        return res
 
     def lean(self, cases):
         return core.run_lean(cases)
@@ -102,14 +106,14 @@ class Ctx:
         if len(self.samples) < limit:
             self.samples.append(s)
 
-    def problem(self, kind, what, case=None, detail=None, signature=None):
+    def problem(self, kind, what, case=None, detail=None, signature=None, related=None):
         if self.blackbox is not None:
             # verdicts about cases the black-box fallback could not run say nothing about the program
             ids = {getattr(case, 'id', None), getattr(getattr(case, 'meta', {}).get('pair') if hasattr(case, 'meta') else None, 'id', None)}
             if case is not None and (ids & self.blackbox.notrun):
                 self.count('blackbox:verdict-dropped')
                 return
-        self.problems.append(Problem(kind, what, case, detail, signature))
+        self.problems.append(Problem(kind, what, case, detail, signature, related))
 
     def elapsed(self):
         return time.time() - self.t0
@@ -226,6 +230,47 @@ def proof_step(pid, theorems, tier='quick'):
 
 
 # ------------------------------------------------------------------------------------------
+# the program run on its own is the arbiter of what the in-process driver saw
+
+def confirm_against_program(ctx):
+    """An oracle verdict rests on observations made inside one long-lived driver process.  Before a failing input is reported,
+    the case (and the case it was compared with) is run as a separate process of the untagged binary: if the program on its own
+    does not print what the driver saw, the driver was no faithful observer (state carried between runs inside the process, a
+    difference between the injected and the real readers / sink) and the verdict is a broken correspondence, not an input."""
+    if ctx.blackbox is not None:
+        return
+    from . import common
+    checked = unfaithful = 0
+    pending = []
+    for p in ctx.problems:
+        if p.kind != 'oracle' or p.case is None or not hasattr(p.case, 'argv'):
+            continue
+        cs = [p.case]
+        pair = getattr(p.case, 'meta', {}).get('pair') if hasattr(p.case, 'meta') else None
+        if pair is not None and hasattr(pair, 'argv'):
+            cs.append(pair)
+        cs += [c for c in p.related if hasattr(c, 'argv') and c is not p.case][:40]
+        if checked >= 8:
+            pending.append(p)
+            continue
+        verdicts = [common.reproduced_by_program(ctx, c, ctx.obs.get(c.id)) for c in cs]
+        verdicts = [v for v in verdicts if v is not None]
+        if not verdicts:
+            continue
+        checked += 1
+        if not all(verdicts):
+            unfaithful += 1
+            p.kind = 'corr'
+            p.what = 'the program run on its own does not reproduce what the in-process driver observed for this case; the verdict was: ' + p.what
+    if checked >= 3 and unfaithful == checked:
+        for p in pending:
+            p.kind = 'corr'
+            p.what = 'not confirmed against the program run on its own (the first %d verdicts of this run were not reproduced); the verdict was: %s' % (checked, p.what)
+    if checked:
+        ctx.notes.append('%d oracle verdicts replayed on the untagged binary as a separate process, %d not reproduced' % (checked, unfaithful))
+
+
+# ------------------------------------------------------------------------------------------
 # main
 
 def run_check(pid, tier, seed):
@@ -290,6 +335,7 @@ def run_check(pid, tier, seed):
         print('INFRA: check crashed: %s' % traceback.format_exc()[-3000:])
         return 2
 
+    confirm_against_program(ctx)
     oracle = [p for p in ctx.problems if p.kind == 'oracle']
     broken = [p for p in ctx.problems if p.kind in ('proof', 'corr')]
     violations = 0
